@@ -139,7 +139,7 @@ def _fns():
     return [_t()]
 
 
-_OUT = "numpy scalars and arrays (C objects the solver cannot produce); nesting deeper than 3; strings are passed through"
+_OUT = "numpy scalars and arrays are handled by c38_numpy over a boundary-value alphabet (C objects the solver cannot produce); nesting deeper than 3; strings are passed through"
 register(Harness("c38_int", "C38", make_int, {"quick": dict(budget_s=60), "thorough": dict(budget_s=120)},
                  goals=["int-in-range", "int-clamped"], functions=_fns, symbolic="x: any Python int (unbounded)", out_of_bound=_OUT,
                  require_exhaustive=True))
@@ -152,3 +152,70 @@ register(Harness("c38_nested", "C38", make_nested, {"quick": dict(budget_s=90, m
                  goals=["nested-nonempty", "int-clamped", "int-in-range"], functions=_fns,
                  symbolic="mapping -> {list of ints, list -> [list, mapping -> {mapping with <= min(2, maxlen-1) concrete keys and symbolic int values, tuple}]}; list length <= maxlen; "
                  "ints unbounded (the float kernel is decided by c38_float; the recursion does not depend on leaf type)", out_of_bound=_OUT))
+
+
+# ---- numpy scalars and arrays (schedule mode: numpy objects are C data the solver cannot produce, so dtype, length,
+# container and every element are solver-chosen from an alphabet of boundary values and run natively)
+NP_VALUES = [0, 1, -1, LIM, -LIM, LIM + 1, -LIM - 1, 2**62, -(2**62), 2**70, 1.5, 1e300, float(2**60), math.inf, -math.inf, math.nan]
+
+
+def make_numpy(P):
+    from vlib.symx import fork_int, notrace, only_shard
+
+    def h(kind: int, cont: int, n: int, v1: int, v2: int) -> str:
+        kd = fork_int(kind, 0, 4)  # 0 numpy scalar, 1 int64 array, 2 float64 array, 3 object array, 4 uint64 array
+        ct = fork_int(cont, 0, 2)  # bare / inside a list / inside a mapping
+        nn = fork_int(n, 1, 2) if kd else 1
+        only_shard(kd + 5 * ct + 15 * nn, P)
+        vals = [NP_VALUES[fork_int(v, 0, len(NP_VALUES) - 1)] for v in (v1, v2)[:nn]]
+        with notrace():
+            import numpy as np
+
+            from bluesky.utils import truncate_json_overflow
+
+            try:
+                if kd == 0:
+                    x = vals[0]
+                    obj = np.float64(x) if isinstance(x, float) else (np.int64(x) if -(2**63) <= x < 2**63 else None)
+                elif kd == 1:
+                    obj = np.array(vals, dtype=np.int64) if all(isinstance(v, int) and -(2**63) <= v < 2**63 for v in vals) else None
+                elif kd == 2:
+                    obj = np.array([float(v) for v in vals], dtype=np.float64)
+                elif kd == 3:
+                    obj = np.array(vals, dtype=object)
+                else:
+                    obj = np.array(vals, dtype=np.uint64) if all(isinstance(v, int) and 0 <= v < 2**64 for v in vals) else None
+            except (OverflowError, ValueError):
+                obj = None
+            if obj is None:
+                return ""  # this value does not exist in that dtype
+            goal("numpy-input")
+            leaves_in = [obj.item()] if kd == 0 else [x.item() if hasattr(x, "item") else x for x in obj.tolist()] if kd != 3 else list(vals)
+            if kd in (1, 2, 4):
+                leaves_in = obj.tolist()
+            data = obj if ct == 0 else ([obj] if ct == 1 else {"k": obj})
+            out = truncate_json_overflow(data)
+            res = out if ct == 0 else (out[0] if ct == 1 and isinstance(out, list) and len(out) == 1 else (out.get("k") if ct == 2 and isinstance(out, dict) else None))
+            if ct and res is None:
+                return "numpy:container-shape-changed"
+            if kd == 0:
+                leaves_out = [res]
+            else:
+                if not isinstance(res, list) or len(res) != len(leaves_in):
+                    return "numpy:array-did-not-become-a-sequence-of-the-same-length"
+                leaves_out = res
+            tags = []
+            for a, b in zip(leaves_in, leaves_out):
+                b = b.item() if hasattr(b, "item") else b  # a numpy scalar is judged by its value
+                tags += _check_scalar(a, b, "numpy")
+            return ";".join(sorted(set(tags)))
+
+    return h
+
+
+register(Harness("c38_numpy", "C38", make_numpy, {"quick": dict(shards=8, budget_s=200, per_path_s=30), "thorough": dict(shards=8, budget_s=600, per_path_s=30)},
+                 goals=["numpy-input", "int-clamped", "int-in-range", "inf", "nan"], functions=_fns, mode="schedule",
+                 symbolic="numpy scalar / int64 / uint64 / float64 / object array of length 1-2, bare or inside a list or a mapping; every element solver-chosen from 16 boundary values "
+                 "(0, +-1, +-(2**53-1), +-2**53, +-2**62, 2**70, 1.5, 1e300, 2.0**60, +-inf, nan)",
+                 out_of_bound="numpy values outside the 16-value alphabet (numpy objects are C data: not symbolic; the scalar kernel is decided symbolically by c38_int / c38_float); arrays of rank > 1 or length > 2",
+                 require_exhaustive=True))
